@@ -8,7 +8,10 @@ from rules import mir, common
 prog = mir.prog()
 p = os.path.join(V, "oracle", "diag_table.json")
 tab = json.load(open(p)) if os.path.exists(p) else {}
-sections = sys.argv[1:] or ["checker", "parser", "skip"]
+sections = sys.argv[1:] or ["checker", "parser", "limits"]
+if "limits" in sections:
+    from rules import c12
+    tab["limits"] = c12.limits_table(prog)
 if "checker" in sections:
     from rules import c11
     tab["checker"] = c11.checker_table(prog)
